@@ -28,6 +28,7 @@ RULE += (" " + 'Pipeline names are flat or path-like with equal basenames (the p
 RULE += (" File cases: 2-6 pipeline YAML files in prefix-related directories (conf, conf.d, conf-extra, conf/sub ...) with priority ties, named as directories, as single files and mixed, in several argument orders; the combined order must be (priority, path) for every way of naming.")
 RULE += (" A quarter of the conversions enter through convert_rule(rule, output_format) as the first call on a fresh backend (per-query results, no finalizers).")
 RULE += (" A third of the conversions use a backend class whose default output format is the alternative one and name no format.")
+RULE += (" A third of the pipeline definitions has an item conditioned on the pipeline state (processing_state at rule, detection-item or field-name level, as list or as named conditions with an expression): it sees the state the items before it - of all operands - left.")
 ASSUMPTIONS = [
     "expected outputs are computed by string construction in the model, not by pySigma",
     "each conversion uses a fresh backend class (backend-level sharing is C15's subject)",
@@ -44,6 +45,17 @@ def spec_to_dict(spec: dict) -> dict:
         d["transformations"].append({"type": "field_name_suffix", "suffix": "_" + s})
     if spec.get("state"):
         d["transformations"].append({"type": "set_state", "key": "k", "val": spec["state"]})
+    g = spec.get("gate")
+    if g:  # an item that reads the pipeline state through its own conditions (list, named + expression; rule / item / field level)
+        cond = {"type": "processing_state", "key": "k", "val": g["val"]}
+        it = {"type": "field_name_suffix", "suffix": "_G" + g["tag"]}
+        level = {"fn": "field_name", "di": "detection_item", "rule": "rule"}[g["level"]]
+        if g["form"] == "list":
+            it[level + "_conditions"] = [cond]
+        else:
+            it[level + "_conditions"] = {"c1": cond}
+            it[level + "_cond_expr"] = "c1"
+        d["transformations"].append(it)
     if spec.get("ph"):  # resolves %v% before the output format's own value_placeholders item sees it
         d["transformations"].append({"type": "value_placeholders"})
     for p in spec["post"]:
@@ -56,7 +68,14 @@ def spec_to_dict(spec: dict) -> dict:
 
 
 def model_output(specs: list[dict], fmt: str, finalize: bool = True):
-    suffix = "_B" + "".join("_" + s for sp in specs for s in sp["suffixes"]) + ("_O" if fmt == "alt" else "")
+    suffix, k = "_B", "none"
+    for sp in specs:
+        suffix += "".join("_" + s for s in sp["suffixes"])
+        if sp.get("state"):
+            k = sp["state"]
+        if sp.get("gate") and k == sp["gate"]["val"]:   # the state as the items before it (of all operands) left it
+            suffix += "_G" + sp["gate"]["tag"]
+    suffix += "_O" if fmt == "alt" else ""
     v = "vB"
     for sp in specs:
         if sp.get("var") is not None:
@@ -277,11 +296,22 @@ def check_case(case: dict) -> Outcome:
                 for sp in model:
                     if sp.get("state"):
                         want_state = {"k": sp["state"]}
-                want_field = "f" + "".join("_" + x for sp in model for x in sp["suffixes"])
-                nitems = sum(len(sp["suffixes"]) + (1 if sp.get("state") else 0) + (1 if sp.get("ph") else 0) for sp in model)
+                want_field, want_applied, kk = "f", [], "none"
+                for sp in model:
+                    want_field += "".join("_" + x for x in sp["suffixes"])
+                    want_applied += [True] * len(sp["suffixes"])
+                    if sp.get("state"):
+                        kk = sp["state"]
+                        want_applied.append(True)
+                    if sp.get("gate"):
+                        hit = kk == sp["gate"]["val"]
+                        want_field += ("_G" + sp["gate"]["tag"]) if hit else ""
+                        want_applied.append(hit if sp["gate"]["level"] == "rule" else True)
+                    if sp.get("ph"):
+                        want_applied.append(True)
                 got_field = rule.detection.detections["sel"].detection_items[0].field
-                if (dict(pl.state), got_field, list(pl.applied)) != (want_state, want_field, [True] * nitems):
-                    out.fail(f"C14:apply-observation:{cls}", f"history {history}: state={dict(pl.state)} field={got_field} applied={pl.applied}; expected state={want_state} field={want_field} applied={[True] * nitems}")
+                if (dict(pl.state), got_field, list(pl.applied)) != (want_state, want_field, want_applied):
+                    out.fail(f"C14:apply-observation:{cls}", f"history {history}: state={dict(pl.state)} field={got_field} applied={pl.applied}; expected state={want_state} field={want_field} applied={want_applied}")
                     break
         except Exception as e:  # noqa
             out.fail(f"C14:{'convert' if kind == 'convert' else 'operation'}-raised:{cls}", f"history {history} then {op}: {type(e).__name__}: {e}")
@@ -305,6 +335,10 @@ def cases(draw, reuse: bool):
             "var": draw(st.sampled_from([None, f"val{i}"])),
             "ph": draw(st.booleans()),
         })
+    for i, sp in enumerate(specs):
+        if draw(st.integers(0, 2)) == 0:
+            sp["gate"] = {"tag": str(i), "val": draw(st.sampled_from([f"s{j}" for j in range(i + 1)])), "form": draw(st.sampled_from(["list", "expr", "expr"])),
+                          "level": draw(st.sampled_from(["fn", "fn", "di", "rule"]))}
     ops = []
     nobj = n
     used = set()
